@@ -50,11 +50,12 @@ CONC = {
     "C07": dict(families=["pause"], invs=["C07_a", "C07_b", "C07_c", "C07_d", "C07_e", "C07_f"], dinvs=["D_C07_a", "D_C07_b", "D_C07_f"]),
     "C08": dict(families=["pause"], invs=["C08", "C08_fwd"], dinvs=["D_C08", "D_C07_a"]),
     "C09": dict(families=["health", "rollout"], invs=["C09_a", "C09_b", "C09_c", "C09_d"], dinvs=["D_C09"]),
+    "C12": dict(families=["snap"], invs=["C12_a", "C12_b"], dinvs=[]),
     "C17": dict(families=["deploy", "pause", "rollout"], invs=["C17_a", "C17_b", "C17_c"], dinvs=["D_C17_c"]),
 }
 
-SIZES = {"quick": {"deploy": 160, "pause": 160, "rollout": 128, "own": 240, "health": 160},
-         "thorough": {"deploy": 4000, "pause": 4000, "rollout": 3000, "own": 4000, "health": 3000}}
+SIZES = {"quick": {"deploy": 160, "pause": 160, "rollout": 128, "own": 240, "health": 160, "snap": 240},
+         "thorough": {"deploy": 4000, "pause": 4000, "rollout": 3000, "own": 4000, "health": 3000, "snap": 4000}}
 SIMS = {"quick": 30, "thorough": 500}
 MC_TIMEOUT = {"quick": 240, "thorough": 1500}
 
@@ -267,13 +268,15 @@ def run_conc(prop, tier, seed, replay=None):
 
 # ---- sequential families: Routing.tla / MC_Routing.tla / RoutingTrace.tla ------------------
 
+# src: which generated histories a property replays: "routing" = random walks of MC_Routing (host/path/TLS universe),
+# "ops" = random walks of MC_Ops (all command kinds, faults), "pairs" = every ordered pair of commands + restart
 SEQ = {
-    "C04": dict(invs=["C04", "C11_restore"], cov=["C04", "C04_404"], dinvs=["Inv_RouteWellDefined", "Inv_RouteSound"]),
-    "C05": dict(invs=["C05_b", "C05_a"], cov=["C05_b"], dinvs=["Inv_Ownership", "Act_RejectedChangesNothing"]),
-    "C06": dict(invs=["C06_a", "C06_b", "C06_res", "C05_b", "C16_acme", "C10_notset"], cov=["C06_a", "C06_res"], dinvs=["Act_FailChangesNothing"]),
-    "C10": dict(invs=["C10", "C10_notset"], cov=["C10", "C10_notset"], dinvs=["Inv_SplitNeedsTargets"]),
-    "C11": dict(invs=["C11_cfg", "C11_restore", "C18_panic"], cov=["C11_cfg"], dinvs=["Act_FailChangesNothing"]),
-    "C16": dict(invs=["C16", "C16_cert", "C16_acme", "C11_restore"], cov=["C16", "C16_cert"], dinvs=["Inv_Cert", "Inv_Decision"]),
+    "C04": dict(src=["routing"], invs=["C04", "C11_restore"], cov=["C04", "C04_404"], dinvs=["Inv_RouteWellDefined", "Inv_RouteSound"]),
+    "C05": dict(src=["routing"], invs=["C05_b", "C05_a"], cov=["C05_b"], dinvs=["Inv_Ownership", "Act_RejectedChangesNothing"]),
+    "C06": dict(src=["ops", "pairs"], invs=["C06_a", "C06_b", "C06_res", "C05_b", "C16_acme", "C10_notset"], cov=["C06_a", "C06_res"], dinvs=["Act_FailChangesNothing"]),
+    "C10": dict(src=["ops", "pairs"], invs=["C10", "C10_notset"], cov=["C10", "C10_notset"], dinvs=["Inv_SplitNeedsTargets"]),
+    "C11": dict(src=["ops", "pairs", "routing"], invs=["C11_cfg", "C11_restore", "C18_panic"], cov=["C11_cfg"], dinvs=["Act_FailChangesNothing"]),
+    "C16": dict(src=["routing"], invs=["C16", "C16_cert", "C16_acme", "C11_restore"], cov=["C16", "C16_cert"], dinvs=["Inv_Cert", "Inv_Decision"]),
 }
 SEQ_SIMS = {"quick": (70, 8), "thorough": (2000, 10)}   # (behaviours, depth)
 
@@ -291,8 +294,8 @@ def run_seq(prop, tier, seed, replay=None):
         plans = [json.load(open(replay))["plan"]]
     else:
         plans += routing.regression_plans()
-        pw = routing.pairwise_restart_plans()
-        plans += pw
+        if "pairs" in spec["src"]:
+            plans += routing.pairwise_restart_plans()
         wd = vlib.spec_copy("routing")
         cfg = "MC_Routing_%s.cfg" % tier
         pm = vlib.start_tlc(wd, "MC_Routing.tla", cfg, workers=vlib.NCPU // 2, timeout=MC_TIMEOUT[tier])
@@ -311,7 +314,7 @@ def run_seq(prop, tier, seed, replay=None):
             raise Inconclusive("TLC simulate (MC_Ops) produced no behaviours:\n" + out[-1500:])
         for f in ofiles:
             steps = routing.ops_steps_from_text(open(f).read(), rng)
-            if steps:
+            if steps and "ops" in spec["src"]:
                 plans.append(routing.plan(steps, note="ops simulate " + os.path.basename(f)))
         rc, out = vlib.finish_tlc(pmo)
         verdict = vlib.tlc_verdict(rc, out)
@@ -327,7 +330,7 @@ def run_seq(prop, tier, seed, replay=None):
             raise Inconclusive("TLC simulate produced no behaviours:\n" + out[-1500:])
         for f in files:
             steps = routing.steps_from_text(open(f).read())
-            if not steps:
+            if not steps or "routing" not in spec["src"]:
                 continue
             plans.append(routing.plan(routing.with_restarts(steps, rng, 1), note="simulate " + os.path.basename(f)))
             if rng.random() < 0.3:
